@@ -207,9 +207,44 @@ def _diverges(n):
     return n.get("ty") == "!"
 
 
+def _mutated_between(tree, lo_line, hi_line):
+    """names (locals, `self.field`) written by an assignment or a &mut method call on lines in (lo_line, hi_line)"""
+    names = set()
+    for n in tree.nodes:
+        sp = n.get("sp")
+        if not sp or not (lo_line < sp[1] <= hi_line):
+            continue
+        tgt = None
+        if n["k"] in ("Assign", "AssignOp"):
+            tgt = n["l"]
+        elif n["k"] == "MethodCall" and n.get("recv_ty", "").startswith("&mut "):
+            tgt = n["recv"]
+        elif n["k"] == "AddrOf" and n.get("mut"):
+            tgt = n["e"]
+        if tgt is not None:
+            s_ = nf(tgt, True)
+            m = __import__("re").match(r"^(self\.\w+|\w+)", s_)
+            if m:
+                names.add(m.group(1))
+    return names
+
+
 def early_facts(tree, node, stop=None):
     """facts established by earlier `if c { diverge }` statements (early returns, asserts) in the enclosing
-    blocks of `node`: the negation of c holds afterwards"""
+    blocks of `node`: the negation of c holds afterwards — unless something the fact mentions is written in between"""
+    raw = _early_facts_raw(tree, node, stop)
+    out = []
+    hi = node.get("sp", [None, 10 ** 9])[1]
+    for (fact, line) in raw:
+        muts = _mutated_between(tree, line, hi - 1)
+        text = " ".join(str(x) for x in fact)
+        if any(__import__("re").search(r"(?<![\w.])%s(?![\w])" % __import__("re").escape(mn), text) for mn in muts):
+            continue
+        out.append(fact)
+    return out
+
+
+def _early_facts_raw(tree, node, stop=None):
     out = []
     child = node
     for a in tree.ancestors(node):
@@ -226,7 +261,7 @@ def early_facts(tree, node, stop=None):
                     cands = list(s["stmts"]) + ([s["expr"]] if "expr" in s else [])
                 for c in cands:
                     if c["k"] == "If" and "e" not in c and _diverges(c["t"]):
-                        out.extend(atoms(c["c"], False))
+                        out.extend((f_, c["sp"][6]) for f_ in atoms(c["c"], False))
                     elif c["k"] == "Match" and c.get("src") == "Normal" and hirq.expn(c)[1] in ("macro:assert_eq", "macro:assert_ne"):
                         # assert_eq!(a, b): match (&a, &b) { (l, r) => if !(*l == *r) { panic } }
                         tup = strip(c["e"])
@@ -234,6 +269,6 @@ def early_facts(tree, node, stop=None):
                             a_, b_ = nf(tup["es"][0], True), nf(tup["es"][1], True)
                             if b_ < a_:
                                 a_, b_ = b_, a_
-                            out.append(("cmp", a_, "==" if hirq.expn(c)[1] == "macro:assert_eq" else "!=", b_))
+                            out.append((("cmp", a_, "==" if hirq.expn(c)[1] == "macro:assert_eq" else "!=", b_), c["sp"][6]))
         child = a
     return out
